@@ -2,6 +2,7 @@ package c07
 
 import (
 	"crypto/aes"
+	"encoding/json"
 	"fmt"
 	"testing"
 	"time"
@@ -77,6 +78,11 @@ func TestPinnedRegressions(t *testing.T) {
 		pin("bytesize-exponent", runMetadata(mdCase{Container: "map[string]string", Target: "*T", Keys: []string{"sizePtr"}, Vals: []string{q}}))
 		pin("bytesize-exponent", runMDScalar(mdScalarCase{JSON: []byte(`"` + q + `"`)}))
 		pin("bytesize-exponent", runMDScalar(mdScalarCase{JSON: []byte(q)}))
+	}
+	for _, q := range []string{"1e-30000000 ", " 1e-2147483647", "1e-2147483647\n", "\t1e-6442450943\t"} {
+		b, _ := json.Marshal(q)
+		pin("bytesize-exponent-whitespace", runMDScalar(mdScalarCase{JSON: b}))
+		pin("bytesize-exponent-whitespace", runMetadata(mdCase{Container: "map[string]string", Target: "*T", Keys: []string{"size"}, Vals: []string{q}}))
 	}
 	_ = metadata.ByteSize{}
 }
